@@ -36,9 +36,9 @@ CHECKS = {
  "C20": ("proof", "B+C", "Lean models of the decision logic of the test helpers with theorems for all inputs/PRNG outcomes + correspondence on a zoo of functions under test",
          "55 theorems: running average = mean, acceptance iff within tolerance, reported error >= every drawn deviation, pass iff max <= tolerance, proper and improper elements both drawn, random_irreps bounds for every PRNG outcome; corrected 'norm' target and tuple handling (fix commits).",
          "Trusted: Lean kernel, Mathlib; torch arithmetic and D_from_matrix as oracles; assert_auto_jitable: runtime only. Two helper defects recorded as known findings.", "6 C20"),
- "C03": ("proof", "A+C", "Lean theorems over R about the matrix-exponential model of wigner_D built on kernel-certified exact generators + correspondence with wigner_D / D_from_* under both default dtypes",
-         "Orthogonality, D(0)=1, D(g^-1)=D(g)^T for all angles and certified degrees; l=1 equals the rotation matrix; parity factor and direct-sum block structure; homomorphism: partial (same-axis proved, general case carried by correspondence).",
-         "Trusted: Lean kernel, Mathlib, torch.matrix_exp = exp. General homomorphism D(g1 g2)=D(g1)D(g2) is not proved (no Lie-group integration theorem in Mathlib): partial, numeric.", "6 C03"),
+ "C03": ("proof", "A+C", "Lean theorems over R about the matrix-exponential model of wigner_D built on kernel-certified exact generators; homomorphism by induction on l through the Clebsch-Gordan intertwiner wigner_3j(l,1,l+1) (kernel certificates: generator equivariance + Gram/surjectivity) + correspondence with wigner_D / D_from_* under both default dtypes",
+         "Orthogonality, D(0)=1, D(g^-1)=D(g)^T for all angles and certified degrees (l <= 11); l=1 equals the rotation matrix; parity factor and direct-sum block structure; homomorphism D(g1 g2)=D(g1)D(g2) for ALL real angles (whenever the rotation matrices multiply, in particular for the angles compose_angles returns) proved for every l <= 8 at setup/quick (Props/C03Hom.lean) and l <= 11 in thorough (Props/C03HomExt.lean; WignerDHom up to l = 12), with its corollaries: D factors through SO(3), the four input forms agree, D_from_matrix and direct sums are multiplicative incl. the parity factor.",
+         "Trusted: Lean kernel, Mathlib, torch.matrix_exp = exp. The homomorphism is proved per degree (two decide +kernel certificates per step l -> l+1: w3jCert l 1 (l+1) and gramCheck l 1 (l+1)); beyond l = 8 (quick) / 11 (thorough) it stays the named hypothesis WignerDHom of the `_partial` theorems. The correspondence check (homomorphism oracles on the real wigner_D, l <= 11, 1e-10, both dtypes) still runs every time and ties the proved model to the code.", "6 C03"),
  "C11": ("proof", "C", "Lean model of the S2/SO(3) grid transforms (DFT definition, discrete orthogonality of the alpha basis proved for all sizes, normalisation constants) + correspondence on coefficient bases",
          "FFT path = dense path, alpha-orthogonality, inverse normalisation pairs and admissibility of completed resolutions proved for all sizes; the round trip is reduced to one explicit quadrature hypothesis checked numerically per configuration (partial).",
          "Trusted: Lean kernel, Mathlib, torch.fft = DFT. Kostelec-Rockmore beta-quadrature exactness is a hypothesis (checked numerically).", "6 C11"),
